@@ -98,7 +98,14 @@ def run(ck: Checker):
         why = '; '.join(f'{w} at line {ln}: `{txt}`' for w, ln, txt in fi.reasons.get(p, [])[:3])
         ck.check(p not in fi.mutated, 'C03.PURE', fi.mod, fi.node, f'{q} does not modify its argument `{p}`',
                  f'argument may be modified: {why}', construct=f'{q}({p}) purity')
-    ck.floor('C03.PURE', 9)
+    # passes are stateless: _transform must not write the transformer object either (a reused pass object
+    # would carry redirection tables from one circuit to the next)
+    for m, cname, fn in transformer_classes(repo):
+        fi = eff.lookup(m.name, f'{cname}._transform')
+        why = '; '.join(f'{w} at line {ln}: `{txt}`' for w, ln, txt in fi.reasons.get('self', [])[:3])
+        ck.check('self' not in fi.mutated, 'C03.PURE', m, fn, f'{cname}._transform keeps no state on the transformer object between calls',
+                 f'the pass object is modified while transforming (state leaks into the next call on another circuit): {why}', construct=f'{cname}._transform stateless')
+    ck.floor('C03.PURE', 14)
 
     # ---- FRESH / IFACE / EMIT per pass ----
     for m, cname, fn, (hm, h, cparam, hq) in rebuild_functions(repo):
@@ -184,6 +191,11 @@ def run(ck: Checker):
         ok = ok and isinstance(par, ast.If) and norm(par.test) == f'{tp_param}.is_symmetric' and st in par.body
     ck.check(ok, 'C03.SYM', mdg, bs, 'operands are sorted in the signature only for symmetric gate types',
              'operand sorting is not guarded by `if _gate_type.is_symmetric`', construct='_build_signature sorting guard')
+    op_param = bs.args.args[1].arg
+    exact = bool(sorts) and all(len(s_.args) == 1 and not s_.keywords and norm(s_.args[0]) == op_param and isinstance(mdg.parents.get(s_), ast.Call)
+                               and norm(mdg.parents[s_].func) == 'tuple' for s_ in sorts)
+    ck.check(exact, 'C03.SYM', mdg, sorts[0] if sorts else bs, 'the signature keeps the operand multiset (sorting only reorders: duplicates stay)',
+             f'`{norm(sorts[0]) if sorts else None}` does not sort exactly the operand tuple: XOR(a, b, a) and XOR(a, b) would share a signature', construct='_build_signature keeps the multiset')
     rets = [n for n in ast.walk(bs) if isinstance(n, ast.Return)]
     ck.check(len(rets) == 1 and norm(rets[0].value) == f'({bs.args.args[0].arg},) + {bs.args.args[1].arg}', 'C03.SYM', mdg, rets[0] if rets else bs,
              'the signature contains the gate type and all operands', f'signature is `{norm(rets[0].value) if rets else None}`', construct='_build_signature value')
